@@ -9,10 +9,12 @@ import (
 	"go/types"
 	"os"
 	"path/filepath"
+	"runtime"
 	"runtime/debug"
 	"sort"
 	"strings"
 	"sync"
+	"sync/atomic"
 )
 
 type OblResult struct {
@@ -187,7 +189,13 @@ type runCfg struct {
 }
 
 // discharge runs the solvers on the obligations selected by cfg.filter.
+var solverSlots = make(chan struct{}, maxInt(2, (runtime.NumCPU()*2)/5))
+
 func discharge(vc *VC, cfg runCfg) []*OblResult {
+	reseedBudget := int32(6)
+	if os.Getenv("KVC_NORESEED") != "" {
+		reseedBudget = 0 // robustness testing: report what a single seed does
+	}
 	var sel []*Obligation
 	for _, o := range vc.obls {
 		if cfg.filter == nil || cfg.filter(o.Name) {
@@ -195,7 +203,9 @@ func discharge(vc *VC, cfg runCfg) []*OblResult {
 		}
 	}
 	res := make([]*OblResult, len(sel))
-	sem := make(chan struct{}, cfg.par)
+	// one global limit on obligations in flight: every obligation races three solver processes, and an oversubscribed
+	// machine turns 3 s proofs into 10 s timeouts (measured: seed- and load-dependent false alarms in full runs)
+	sem := solverSlots
 	var wg sync.WaitGroup
 	for i, o := range sel {
 		wg.Add(1)
@@ -214,7 +224,11 @@ func discharge(vc *VC, cfg runCfg) []*OblResult {
 			if o.Expect == "not-unsat" {
 				need = 1
 			}
-			sr := cachedSolve(cfg, vc.query(o), file, need)
+			ocfg := cfg
+			if o.Expect == "not-unsat" && ocfg.timeoutS > 4 {
+				ocfg.timeoutS = 4 // a contradictory contract is refuted at once; the usual answer here is a timeout
+			}
+			sr := cachedSolve(ocfg, vc.query(o), file, need)
 			r.Result, r.Backend, r.TimeS = sr.Status, sr.Backend, sr.TimeS
 			if o.Expect == "not-unsat" {
 				if sr.Status == "unsat" {
@@ -232,6 +246,29 @@ func discharge(vc *VC, cfg runCfg) []*OblResult {
 				r.Model = parseValues(sr.Output, o.Values)
 				r.Output = truncate(sr.Output, 2000)
 			default:
+				// An "unknown"/timeout depends on the solvers' random seeds (measured: an obligation proved in 0.7 s under
+				// five seeds ran into the timeout under a sixth). unsat under ANY seed is a proof, so an undecided query
+				// is asked again under two other seeds before it is reported; at most reseedBudget queries per function,
+				// so that a genuinely broken function (many failing obligations) is not slowed down much.
+				if atomic.AddInt32(&reseedBudget, -1) >= 0 {
+					for _, delta := range []int{7919, 104729} {
+						rs := solveFile(file, cfg.timeoutS, cfg.seed+delta, 1)
+						if rs.Status == "unsat" {
+							r.Status, r.Result, r.Backend, r.TimeS = "discharged", "unsat", rs.Backend+" (reseeded)", sr.TimeS+rs.TimeS
+							return
+						}
+						if rs.Status == "sat" {
+							sr = rs
+							break
+						}
+					}
+					if sr.Status == "sat" {
+						r.Status, r.Result = "failed", "sat"
+						r.Model = parseValues(sr.Output, o.Values)
+						r.Output = truncate(sr.Output, 2000)
+						return
+					}
+				}
 				r.Status = "undecided"
 				r.Output = truncate(sr.Output, 600)
 				// no model: the solvers cannot answer sat in the presence of quantified hypotheses. Ask again without
